@@ -55,6 +55,20 @@ func (node *tagCycleNode) Execute(ctx *ExecutionContext, writer TemplateWriter) 
 			return err
 		}
 
+		// a cycle value among the arguments stands for what it currently holds
+		// (never for itself: {% cycle c as c %} would otherwise hold itself)
+		for depth := 0; ; depth++ {
+			inner, isCycleValue := val.Interface().(*tagCycleValue)
+			if !isCycleValue {
+				break
+			}
+			if inner.value == nil || depth > 32 {
+				val = AsValue(nil)
+				break
+			}
+			val = inner.value
+		}
+
 		t.value = val
 
 		if !t.node.silent {
